@@ -711,6 +711,10 @@ func constValueProbe(c *core.Ctx, p *load.Prog) {
 		{"int32", "Neg", "-5", "-5"}, {"uint64", "Big", "18446744073709551615", "18446744073709551615"}, {"int64", "Hex", "0x7fffffffffffffff", "9223372036854775807"},
 		{"byte", "B", "255", "255"}, {"bool", "Yes", "true", "true"}, {"string", "Pct", `"50% off %d"`, `"50% off %d"`}, {"string", "Esc", `"a\"b\\n"`, `"a\"b\\n"`},
 		{"float64", "Pi", "3.5", "7/2"}, {"int16", "NegHex", "-0x10", "-16"},
+		// a float const written as an integer literal, also with the leading zero
+		// that makes it octal for the parser and for Go alike
+		{"float64", "Whole", "3", "3"}, {"float32", "LeadZero", "010", "8"}, {"float64", "NegLeadZero", "-017", "-15"}, {"int32", "Oct", "010", "8"},
+		{"float64", "Exp", "1e3", "1000"}, {"float64", "HexF", "0x10", "16"},
 	}
 	for _, k := range consts {
 		fs.Consts = append(fs.Consts, b.Const(k.typ, k.name, k.val))
